@@ -102,6 +102,14 @@ CLAIMS = {
         "text": "Release-before-signal rule on the task spawned by DirectAddrUpdateState::run: the captured OwnedMutexGuard must be dropped on every path before run_done.send; plus want_update writers and the try_lock_owned gating of run/try_run. Channel liveness is not decided.",
         "technique": "must-precede (dominance) of a guard release over a channel send in coroutine MIR, who-writes, success-edge dominance",
     },
+    "C26": {
+        "text": "Static check-then-act rule: HomeRelayWatch::set_status's read (Watchable::get) and dependent write (Watchable::set) must lie under one continuously held guard that the other writers (set, clear) hold too; who-calls split between RelayActor and ActiveRelayActor; new URL published before SetHomeRelay goes out. What watchers observe in between is n0-watcher's contract.",
+        "technique": "static lockset (guard lifetimes) + control-dependence of the write on the read + who-calls + dominance",
+    },
+    "C30": {
+        "text": "Static lockset atomic-set rule over {last_data, services}: add_boxed keeps a last_data guard from the read through priming the new service until it is appended; publish holds last_data exclusively from before the fan-out until the store; consistent lock order; filter applied once and the filtered value stored. What services do with the data is not decided.",
+        "technique": "static lockset: guard held-at-call queries on MIR, lock-order check, derives-from",
+    },
 }
 
 _PENDING = "rules for this property are not implemented yet in this revision (see DESIGN.md §4 for the planned structural clauses)"
